@@ -82,7 +82,10 @@ Verdict(t, e) ==
          ELSE IF ex[1] /\ (e.out.d = 0 \/ ~REq(RatOut(e.out), RSub(ROne, ex[2]))) THEN
               <<"InfidelityCrossRep",
                 IF e.via = "Infidelity(target=s,state=dm)" /\ ~GraphLike((CHOOSE x \in EnsOf(b) : TRUE).g)
-                THEN "dm-state-not-a-graph-state" ELSE e.via>>
+                THEN "dm-state-not-a-graph-state"
+                ELSE IF e.via = "Infidelity(target=dm,state=s)" /\ \E k \in DOMAIN b.branches[1].rows : b.branches[1].rows[k].s = 1
+                THEN "stabilizer-rows-with-minus-sign"
+                ELSE e.via>>
          ELSE <<"ok", "">>
     [] e.fn = "partial_trace" ->
          LET a == St(t, e.a) n == NQs(a) m == Len(e.keep) E == EnsOf(a) IN
